@@ -214,3 +214,163 @@ Proof.
       replace (N.to_nat (k' - k)) with (S (N.to_nat (k' - (k + 1)))) by lia.
       repeat split; [exact Hn|exact Hc'|lia].
 Qed.
+
+(* ---- several evaluations: batches, sequences, concurrent schedules ---- *)
+From Coq Require Import Permutation.
+
+Lemma all2_Forall2 {A B : Type} (f : A -> B -> bool) l l' :
+  all2 f l l' = true <-> Forall2 (fun a b => f a b = true) l l'.
+Proof.
+  revert l'; induction l as [|a r IH]; intros [|b r']; cbn; split; intros H;
+    try discriminate; try constructor; try solve [inversion H].
+  - apply andb_true_iff in H as [H _]; exact H.
+  - apply andb_true_iff in H as [_ H]; apply IH; exact H.
+  - inversion H as [|? ? ? ? Hab Hr]; subst. apply andb_true_iff; split; [exact Hab|apply IH; exact Hr].
+Qed.
+
+(* The judge of a batch / sequence / concurrent schedule IS the single-evaluation judge applied to
+   every evaluation with the head that evaluation was served and the blocks that evaluation
+   processed - nothing else enters. *)
+Lemma multi_pointwise conf evs obs :
+  multi_ok conf evs obs = true <-> Forall2 (fun e o => eval_judge conf e o = true) evs obs.
+Proof. unfold multi_ok. apply all2_Forall2. Qed.
+
+Lemma eval_ok_model p oh ob conf : eval_ok p oh ob conf (processed_opt p oh ob conf) = true.
+Proof.
+  unfold eval_ok, processed_opt. destruct oh as [h|]; [|reflexivity].
+  destruct ob as [b|]; [apply single_ok_model|reflexivity].
+Qed.
+
+Lemma multi_ok_model conf evs : multi_ok conf evs (multi_model conf evs) = true.
+Proof.
+  unfold multi_ok, multi_model. induction evs as [|[[p oh] ob] r IH]; cbn; [reflexivity|].
+  rewrite eval_ok_model. exact IH.
+Qed.
+
+(* Whatever the judge accepts for one evaluation: something was processed only if both the head and
+   the event block were known, and every processed block is buried deep enough under THAT head. *)
+Lemma eval_ok_safe p oh ob conf blocks b :
+  eval_ok p oh ob conf blocks = true -> In b blocks ->
+  exists head blk, oh = Some head /\ ob = Some blk /\
+    (uses_conf p = true -> conf <= confirmations head b) /\ (uses_conf p = false -> b <= head).
+Proof.
+  unfold eval_ok. intros Hok Hin.
+  destruct oh as [h|]; [destruct ob as [k|]|].
+  - exists h, k. split; [reflexivity|]. split; [reflexivity|]. eapply single_ok_safe; eauto.
+  - destruct blocks; [contradiction|discriminate].
+  - destruct blocks; [contradiction|discriminate].
+Qed.
+
+Lemma multi_ok_safe conf evs obs p oh ob o b :
+  multi_ok conf evs obs = true -> In ((p, oh, ob), o) (combine evs obs) -> In b o ->
+  exists head blk, oh = Some head /\ ob = Some blk /\
+    (uses_conf p = true -> conf <= confirmations head b) /\ (uses_conf p = false -> b <= head).
+Proof.
+  intros Hok Hin Hb. apply multi_pointwise in Hok.
+  induction Hok as [|e o' evs' obs' He Hr IH]; cbn in Hin; [contradiction|].
+  destruct Hin as [Heq|Hin]; [|apply IH; exact Hin].
+  inversion Heq; subst. cbn in He. eapply eval_ok_safe; eauto.
+Qed.
+
+Lemma all2_combine {A B : Type} (f : A -> B -> bool) l l' :
+  length l = length l' -> all2 f l l' = forallb (fun ab => f (fst ab) (snd ab)) (combine l l').
+Proof.
+  revert l'; induction l as [|a r IH]; intros [|b r'] Hlen; cbn in *; try discriminate; [reflexivity|].
+  rewrite IH by (injection Hlen; auto). reflexivity.
+Qed.
+
+Lemma forallb_perm {A : Type} (f : A -> bool) l l' : Permutation l l' -> forallb f l = forallb f l'.
+Proof.
+  induction 1 as [|x l l' _ IH|x y l|l l' l'' _ IH1 _ IH2]; cbn.
+  - reflexivity.
+  - rewrite IH; reflexivity.
+  - destruct (f x), (f y); reflexivity.
+  - rewrite IH1; exact IH2.
+Qed.
+
+(* The verdict does not depend on the order in which the evaluations are listed: whichever schedule
+   (order of arrival, of completion, any interleaving) pairs each evaluation with its own head and
+   its own processed blocks gives the same verdict. *)
+Lemma multi_schedule_independent conf evs obs evs' obs' :
+  length evs = length obs -> length evs' = length obs' ->
+  Permutation (combine evs obs) (combine evs' obs') ->
+  multi_ok conf evs obs = multi_ok conf evs' obs'.
+Proof.
+  intros Hl Hl' Hp. unfold multi_ok. rewrite !all2_combine by assumption. apply forallb_perm. exact Hp.
+Qed.
+
+(* one head, several requests, flat observation *)
+Lemma batch_ok_model p head conf blks : batch_ok p head conf (batch_model p head conf blks) = true.
+Proof.
+  unfold batch_ok, batch_model. induction blks as [|b r IH]; cbn; [reflexivity|].
+  rewrite forallb_app, IH, andb_true_r.
+  unfold processed. destruct (accept p head b conf) eqn:Ha; [|reflexivity].
+  apply accept_buried in Ha. destruct (range_path p); cbn; rewrite Ha; reflexivity.
+Qed.
+
+Lemma batch_ok_safe p head conf blocks b :
+  batch_ok p head conf blocks = true -> In b blocks ->
+  (uses_conf p = true -> conf <= confirmations head b) /\ (uses_conf p = false -> b <= head).
+Proof.
+  unfold batch_ok. intros Hok Hin. rewrite forallb_forall in Hok. apply buried_spec. apply Hok. exact Hin.
+Qed.
+
+(* judging the flat observation = judging every request's share of it, however it is split *)
+Lemma batch_pointwise p head conf (obs : list (list Z)) :
+  batch_ok p head conf (concat obs) = forallb (batch_ok p head conf) obs.
+Proof.
+  unfold batch_ok. induction obs as [|o r IH]; cbn; [reflexivity|]. rewrite forallb_app, IH. reflexivity.
+Qed.
+
+(* EVM retry by transaction hash, receipts with logs *)
+Lemma mine_idx_nth logs k i :
+  In i (mine_idx logs k) -> exists lb, nth_error logs (N.to_nat (i - k)) = Some (true, lb) /\ (k <= i)%N.
+Proof.
+  revert k; induction logs as [|[m lb] r IH]; cbn; intros k Hin; [contradiction|].
+  apply in_app_or in Hin as [Hin|Hin].
+  - destruct m; [|contradiction]. destruct Hin as [<-|[]]. exists lb.
+    replace (k - k)%N with 0%N by lia. split; [reflexivity|lia].
+  - destruct (IH _ Hin) as [lb' [Hn Hk]]. exists lb'. split; [|lia].
+    replace (N.to_nat (i - k)) with (S (N.to_nat (i - (k + 1)))) by lia. exact Hn.
+Qed.
+
+Lemma tx_ok_model conf e : tx_ok conf e (tx_model conf e) = true.
+Proof.
+  destruct e as [[[served oh] orb] logs]. unfold tx_ok, tx_model.
+  destruct served; [|reflexivity]. destruct oh as [h|]; [|reflexivity]. destruct orb as [rb|]; [|reflexivity].
+  destruct (accept EvmRetryTx h rb conf) eqn:Ha; [|reflexivity].
+  apply forallb_forall. intros i Hin. apply mine_idx_nth in Hin as [lb [Hn _]].
+  rewrite N.sub_0_r in Hn. rewrite Hn. cbn [known_buried].
+  apply accept_buried in Ha. rewrite Ha. reflexivity.
+Qed.
+
+Lemma txs_ok_model conf evs : txs_ok conf evs (txs_model conf evs) = true.
+Proof.
+  unfold txs_ok, txs_model. induction evs as [|e r IH]; cbn; [reflexivity|].
+  rewrite tx_ok_model. exact IH.
+Qed.
+
+Lemma known_buried_spec oh ob conf :
+  known_buried oh ob conf = true -> exists h b, oh = Some h /\ ob = Some b /\ conf <= confirmations h b.
+Proof.
+  unfold known_buried. destruct oh as [h|]; [|discriminate]. destruct ob as [b|]; [|discriminate].
+  intros Hb. exists h, b. split; [reflexivity|]. split; [reflexivity|].
+  apply buried_spec in Hb as [Hc _]. apply Hc. reflexivity.
+Qed.
+
+(* Whatever the judge accepts: the deposit of a log became a message only if the head was known and a
+   block the log is known to be in (by the receipt or by the log itself) has >= conf confirmations. *)
+Lemma tx_ok_safe conf served oh orb logs obs i :
+  tx_ok conf (served, oh, orb, logs) obs = true -> In i obs ->
+  exists h m lb b, oh = Some h /\ nth_error logs (N.to_nat i) = Some (m, lb) /\
+    (orb = Some b \/ lb = Some b) /\ conf <= confirmations h b.
+Proof.
+  unfold tx_ok. intros Hok Hin. rewrite forallb_forall in Hok. specialize (Hok _ Hin).
+  destruct (nth_error logs (N.to_nat i)) as [[m lb]|]; [|discriminate].
+  apply orb_true_iff in Hok as [Hk|Hk]; apply known_buried_spec in Hk as [h [b [Hh [Hb Hc]]]];
+    exists h, m, lb, b; (split; [exact Hh|]); (split; [reflexivity|]); (split; [|exact Hc]); [left|right]; exact Hb.
+Qed.
+
+Lemma txs_pointwise conf evs obs :
+  txs_ok conf evs obs = true <-> Forall2 (fun e o => tx_ok conf e o = true) evs obs.
+Proof. unfold txs_ok. apply all2_Forall2. Qed.
